@@ -16,6 +16,10 @@ limitations under the License.
 
 #pragma once
 
+#include <cstdint>
+#include <map>
+#include <utility>
+
 #include "libcellml/analysermodel.h"
 
 namespace libcellml {
@@ -65,7 +69,7 @@ struct AnalyserModel::AnalyserModelImpl
     bool mNeedAcschFunction = false;
     bool mNeedAcothFunction = false;
 
-    std::map<uintptr_t, bool> mCachedEquivalentVariables;
+    std::map<std::pair<uintptr_t, uintptr_t>, bool> mCachedEquivalentVariables;
 
     static AnalyserModelPtr create(const ModelPtr &model = nullptr);
 
